@@ -1127,6 +1127,8 @@ func (gqm *GroupQuotaManager) GetTreeID() string {
 	return gqm.treeID
 }
 
+// resetRootQuotaUsedAndRequest restarts the root from the system and default quota group. Their requests are taken
+// max-limited, as recursiveUpdateGroupTreeWithDeltaRequest credits them to the root.
 func (gqm *GroupQuotaManager) resetRootQuotaUsedAndRequest() {
 	rootQuotaInfo := gqm.getQuotaInfoByNameNoLock(extension.RootQuotaName)
 	rootQuotaInfo.lock.Lock()
@@ -1137,7 +1139,7 @@ func (gqm *GroupQuotaManager) resetRootQuotaUsedAndRequest() {
 	systemQuotaInfo := gqm.getQuotaInfoByNameNoLock(extension.SystemQuotaName)
 	if systemQuotaInfo != nil {
 		used = quotav1.Add(used, systemQuotaInfo.GetUsed())
-		request = quotav1.Add(request, systemQuotaInfo.GetRequest())
+		request = quotav1.Add(request, systemQuotaInfo.getLimitRequest())
 		nonPreemptUsed = quotav1.Add(nonPreemptUsed, systemQuotaInfo.GetNonPreemptibleUsed())
 		nonPreemptRequest = quotav1.Add(nonPreemptRequest, systemQuotaInfo.GetNonPreemptibleRequest())
 	}
@@ -1145,7 +1147,7 @@ func (gqm *GroupQuotaManager) resetRootQuotaUsedAndRequest() {
 	defaultQuotaInfo := gqm.getQuotaInfoByNameNoLock(extension.DefaultQuotaName)
 	if defaultQuotaInfo != nil {
 		used = quotav1.Add(used, defaultQuotaInfo.GetUsed())
-		request = quotav1.Add(request, defaultQuotaInfo.GetRequest())
+		request = quotav1.Add(request, defaultQuotaInfo.getLimitRequest())
 		nonPreemptUsed = quotav1.Add(nonPreemptUsed, defaultQuotaInfo.GetNonPreemptibleUsed())
 		nonPreemptRequest = quotav1.Add(nonPreemptRequest, defaultQuotaInfo.GetNonPreemptibleRequest())
 	}
